@@ -1,7 +1,7 @@
 ---- MODULE MC_Inherit ----
 EXTENDS Inherit
-Dc(ty, df, b, doc, k, an, inst) == [ty |-> ty, default |-> df, bounds |-> b, doc |-> doc, constant |-> k, an |-> an, inst |-> inst, incl |-> "U"]
-DcX(ty, df, b) == [ty |-> ty, default |-> df, bounds |-> b, doc |-> "U", constant |-> "U", an |-> "U", inst |-> "U", incl |-> "xx"]
+Dc(ty, df, b, doc, k, an, inst) == [ty |-> ty, default |-> df, bounds |-> b, doc |-> doc, constant |-> k, an |-> an, inst |-> inst, incl |-> "U", meta |-> "U", nmeta |-> "U"]
+DcX(ty, df, b) == [ty |-> ty, default |-> df, bounds |-> b, doc |-> "U", constant |-> "U", an |-> "U", inst |-> "U", incl |-> "xx", meta |-> "U", nmeta |-> "U"]
 DeclsT == {
   Dc("Parameter", "U", "U", "U", "U", "U", "U"),
   Dc("Parameter", "s", "U", "d1", "U", "U", "U"),
@@ -27,6 +27,16 @@ DeclsT == {
 DeclsQ == {d \in DeclsT : d.ty # "String" /\ d.default # "1.5" /\ ~(d.ty = "Integer" /\ d.bounds = "b02") /\ ~(d.ty = "Parameter" /\ d.default = "5")}
 DeclsQD == {d \in DeclsQ : d.doc = "U" /\ d.constant = "U" /\ ~(d.ty = "Integer")}
 RootQ == {d \in DeclsQ : d.inst = "U" /\ d.constant = "U"}
+DcM(ty, df, m, n) == [Dc(ty, df, "U", "U", "U", "U", "U") EXCEPT !.meta = m, !.nmeta = n]
+\* other metadata attributes: specified at one level, left unspecified at the next, across type changes
+DeclsM == { Dc("Parameter", "U", "U", "U", "U", "U", "U"), Dc("Number", "U", "U", "U", "U", "U", "U"), Dc("Integer", "U", "U", "U", "U", "U", "U"),
+            DcM("Parameter", "U", "m1", "U"), DcM("Number", "1", "m1", "n1"), DcM("Number", "U", "m2", "U"), DcM("Number", "U", "U", "n1"),
+            DcM("Integer", "U", "m2", "n1"), DcM("Integer", "1", "U", "U") }
+\* instantiate=True ancestors whose default does not fit the redeclared type
+DeclsI == { Dc("Parameter", "s", "U", "U", "U", "U", "T"), Dc("Parameter", "5", "U", "U", "U", "U", "T"), Dc("Number", "1.5", "U", "U", "U", "U", "T"),
+            Dc("String", "s", "U", "U", "U", "U", "T"),
+            Dc("Number", "U", "U", "U", "U", "U", "U"), Dc("Integer", "U", "U", "U", "U", "U", "U"), Dc("Number", "U", "b02", "U", "U", "U", "U"),
+            Dc("Parameter", "U", "U", "U", "U", "U", "U"), Dc("String", "U", "U", "U", "U", "U", "U"), Dc("Integer", "U", "U", "d1", "U", "U", "U") }
 ShapesAll == {"chain", "skip", "diamondBC", "diamondCB"}
 ShapesChain == {"chain", "skip"}
 ShapesDiamond == {"diamondBC", "diamondCB"}
